@@ -359,13 +359,13 @@ def execute(plan: Plan,
                                       exe_atc_and_skip_assertions)
     builder = ConfigurationBuilder(hds, hds, NameAndValue('stub-actor', actor if actor is not None else ActorStub(plan)))
     run.cwd_before = os.getcwd()
-    run.environ_before = dict(os.environ)
+    run.environ_before = tuple(sorted(os.environ.items()))
     try:
         run.result = full_execution.execute(exe_conf, builder, is_keep_sandbox, test_case)
     except Exception as e:  # noqa  (an escaping exception is itself an observation)
         run.exception = e
     run.cwd_after = os.getcwd()
-    run.environ_after = dict(os.environ)
+    run.environ_after = tuple(sorted(os.environ.items()))
     run.trace = list(plan.trace)
     run.previous_phases = list(plan.previous_phases)
     run.sandbox_exists_after = [os.path.isdir(d) and len(os.listdir(d)) > 0 for d in run.sandbox_roots]
